@@ -12,7 +12,10 @@ import (
 	"github.com/datastax/go-cassandra-native-protocol/message"
 	"github.com/datastax/go-cassandra-native-protocol/primitive"
 
+	"github.com/datastax/cql-proxy/proxycore"
+
 	"verif/fakecass"
+	"verif/model"
 	"verif/mon"
 	"verif/px"
 )
@@ -240,4 +243,86 @@ func unpreparedAlongThePlan(c *Ctx, idx int) {
 	if ri.Kind != "Rows" || ri.Tok != tok {
 		r.Violate(mon.Violation{Signature: "C05/unprepared-along-the-plan/not-failed-over-to-healthy-host/" + first, Detail: fmt.Sprintf("%d hosts, all without the statement (it is in the proxy's prepared cache); the first %d answer %s once re-prepared, the last one would answer rows: the client got %s %q; the request was executed on %d host(s) (attempts %s)", hosts, hosts-1, first, ri.Kind, ri.ErrMsg, len(executed), describe(attempts)), Scenario: scenario, Witness: attempts})
 	}
+}
+
+// planAcrossCounterWrap: the load balancer's plan counter is preset (tag-guarded knob) just below 2^32 and just below 2^64,
+// the places where a narrower or wrapping counter shows; then idempotent requests whose every attempt fails walk their whole
+// plan: every host exactly once, then the last error - and a request that some host would answer gets its rows.
+func planAcrossCounterWrap(c *Ctx, idx int) {
+	r := c.R
+	hosts := 3 + 2*(idx%2) // 3 or 5: not powers of two
+	preset := []uint64{1<<32 - 4, 1<<64 - 4, 1<<33 - 3, 1<<31 - 2}[(idx/2)%4]
+	key := fmt.Sprintf("plan-across-counter-wrap/h%d/preset=%#x", hosts, preset)
+	scenario := map[string]interface{}{"kind": "plan-across-counter-wrap", "idx": idx}
+	c.Step("c05 %s", key)
+	bed, err := px.NewBed(px.BedConfig{Hosts: hosts, NumConns: 1, Keyspaces: []string{"ks1"}})
+	if err != nil {
+		r.Inconc("plan-across-counter-wrap: cannot start bed: " + err.Error())
+		return
+	}
+	defer bed.Close()
+	bed.OnHook(nil)
+	if !proxycore.VerifSetPlanCounter(bed.Proxy.VerifLoadBalancer(), preset) {
+		r.Inconc("plan-across-counter-wrap: VerifSetPlanCounter does not recognise the load balancer")
+		return
+	}
+	scripts := NewScripts()
+	bed.Cluster.SetScript(scripts.Func())
+	cl, err := bed.ReadyClient(primitive.ProtocolVersion4, "")
+	if err != nil {
+		r.Inconc("plan-across-counter-wrap: handshake: " + err.Error())
+		return
+	}
+	defer cl.Close()
+	for k := 0; k < 10; k++ {
+		tok := NewTok()
+		seq := make([]model.Outcome, hosts+2)
+		for i := range seq {
+			seq[i] = model.Overloaded
+		}
+		healthyAt := -1
+		if k%2 == 1 {
+			healthyAt = hosts - 1 // the last host of the traversal answers
+			seq[healthyAt] = model.Rows
+		}
+		scripts.Set(tok, seq)
+		mark := bed.Log.Len()
+		reply, werr := cl.CallF(BuildRequest(primitive.ProtocolVersion4, int16(k+1), KQuery, true, tok, primitive.ConsistencyLevelOne), 15*time.Second)
+		attempts := Traces(bed.Log.Snapshot()[mark:])[tok]
+		r.Eval(1)
+		r.Obs("plan_across_counter_wrap_requests", 1)
+		seen := map[int]int{}
+		var order []string
+		for _, a := range attempts {
+			seen[a.Host]++
+			order = append(order, fmt.Sprint(a.Host))
+		}
+		var twice, missed []int
+		for h := 1; h <= hosts; h++ {
+			if seen[h] > 1 {
+				twice = append(twice, h)
+			}
+			if seen[h] == 0 {
+				missed = append(missed, h)
+			}
+		}
+		detail := fmt.Sprintf("%d hosts, plan counter preset to %#x, request #%d after the preset: hosts tried, in order: %s", hosts, preset, k, strings.Join(order, ","))
+		if werr != nil || reply == nil {
+			r.Violate(mon.Violation{Signature: "C05/plan-across-counter-wrap/no-reply", Detail: detail, Scenario: scenario})
+			return
+		}
+		ri := replyInfo(reply)
+		switch {
+		case len(twice) > 0:
+			r.Violate(mon.Violation{Signature: "C05/plan-across-counter-wrap/host-tried-twice", Detail: fmt.Sprintf("%s: host(s) %v tried more than once in one traversal (answer: %s)", detail, twice, ri.Kind), Scenario: scenario, Witness: attempts})
+			return
+		case len(missed) > 0:
+			r.Violate(mon.Violation{Signature: "C05/plan-across-counter-wrap/host-never-tried", Detail: fmt.Sprintf("%s: host(s) %v never tried although every attempt failed with a retry-next error; answer %s %q", detail, missed, ri.Kind, ri.ErrMsg), Scenario: scenario, Witness: attempts})
+			return
+		case healthyAt >= 0 && ri.Kind != "Rows":
+			r.Violate(mon.Violation{Signature: "C05/plan-across-counter-wrap/not-failed-over-to-healthy-host", Detail: fmt.Sprintf("%s: the last host of the plan answers rows, the client got %s %q", detail, ri.Kind, ri.ErrMsg), Scenario: scenario, Witness: attempts})
+			return
+		}
+	}
+	r.NonTrivial(key)
 }
